@@ -8,6 +8,7 @@
     forest inherited <label>                inherited_prefixes, sorted
     forest unresolved <label>               unresolved_namespaces, in order
     forest in_scope <label>                 namespaces_in_scope, in yield order
+    forest serialises <label>               1 iff to_string(node) is Ok
     forest clone_eq <src> <clone>           1 iff erase clone = expectedClone consolidation (erase src)
     forest store_clone <keep|swap>          Xot::clone(): the identity on the model value
 -/
@@ -72,6 +73,8 @@ def handleFclone (env : Env) (s : FState) (ws : List String) : Option (FState ×
       let ta ← s.forest.get? (← node a)
       let tb ← s.forest.get? (← node b)
       some (s, if treeEq tb.erase (expectedClone s.forest.consolidation ta.erase) then "1" else "0")
+  | ["serialises", a] => do
+      some (s, if s.forest.serialises env (← node a) then "1" else "0")
   | ["store_clone", _] =>
       let st : Store := { forest := s.forest, env := env }
       some ({ s with forest := st.clone.forest }, "ok")
